@@ -71,7 +71,7 @@ def gen_cases(tier, seed):
         # resources of a VALID data package that are not in the shape dataflows itself writes: inline data (no path),
         # a multipart path (list of files), a field without 'type'
         for obs in OBSERVERS[:-1]:
-            for pshape in ('inline', 'multipart', 'typeless'):
+            for pshape in ('inline', 'multipart', 'typeless', 'dumped'):
                 j += 1
                 yield {'family': obs, 'idx': 10 ** 6 + j, 'seed': seed, 'edge': 'foreign_package', 'pkg_shape': pshape}
 
